@@ -581,6 +581,43 @@ func (a *FA) lin(v ssa.Value, depth int) Lin {
 	return linAtom(a.VN(v))
 }
 
+// LinAlts expands the merge phis (not loop-header phis) that occur as atoms of the linear form of v into their
+// alternatives: the finite set of linear forms v can take (at most cap forms, else the unexpanded form alone).
+func (a *FA) LinAlts(v ssa.Value, cap int) []Lin {
+	out := []Lin{a.Lin(v)}
+	for round := 0; round < 6; round++ {
+		changed := false
+		var next []Lin
+		for _, L := range out {
+			expanded := false
+			for atom, cf := range L.T {
+				p, ok := a.AtomValue(atom).(*ssa.Phi)
+				if !ok || isLoopHeaderPhi(p) {
+					continue
+				}
+				rest := L.clone()
+				delete(rest.T, atom)
+				for _, e := range p.Edges {
+					next = append(next, rest.addScaled(a.Lin(e), cf))
+				}
+				expanded, changed = true, true
+				break
+			}
+			if !expanded {
+				next = append(next, L)
+			}
+		}
+		if len(next) > cap {
+			return []Lin{a.Lin(v)}
+		}
+		out = next
+		if !changed {
+			break
+		}
+	}
+	return out
+}
+
 // lenOf: the linear form of len(x) for a slice or string value x that is not itself the operand of a len call.
 func (a *FA) lenOf(x ssa.Value, depth int) Lin {
 	if sl, ok := x.(*ssa.Slice); ok {
